@@ -211,8 +211,9 @@ func (o *ObjectSchema) unserializeToStruct(rawData map[string]any) (any, error) 
 	for key, value := range rawData {
 		val := value
 		elem := reflectedValue.Elem()
-		// A field promoted from an embedded pointer to a struct cannot be reached in the new, empty value.
-		field, err := elem.FieldByIndexErr(o.fieldCache[key].Index)
+		// A field promoted from an embedded pointer to a struct is reached through that pointer, which is nil in the new,
+		// empty value: the struct it points to is made on the way.
+		field, err := fieldByIndexAlloc(elem, o.fieldCache[key].Index)
 		if err != nil {
 			return nil, &ConstraintError{
 				"Field cannot be set",
@@ -258,6 +259,31 @@ func (o *ObjectSchema) unserializeToStruct(rawData map[string]any) (any, error) 
 		result = reflectedValue.Interface()
 	}
 	return result, nil
+}
+
+// fieldByIndexAlloc is reflect.Value.FieldByIndex for a value that is being filled: where the way to the field leads
+// through an embedded pointer to a struct that is nil, the struct is allocated (as encoding/json does when it decodes).
+func fieldByIndexAlloc(v reflect.Value, index []int) (reflect.Value, error) {
+	for i, x := range index {
+		if i > 0 && v.Kind() == reflect.Pointer && v.Type().Elem().Kind() == reflect.Struct {
+			if v.IsNil() {
+				if !v.CanSet() {
+					return reflect.Value{}, fmt.Errorf(
+						"the embedded pointer to the unexported struct type %s cannot be set", v.Type().Elem())
+				}
+				embedded := reflect.New(v.Type().Elem())
+				v.Set(embedded)
+				v = embedded.Elem()
+			} else {
+				v = v.Elem()
+			}
+		}
+		if v.Kind() != reflect.Struct || x >= v.NumField() {
+			return reflect.Value{}, fmt.Errorf("no field #%d in %s", x, v.Type())
+		}
+		v = v.Field(x)
+	}
+	return v, nil
 }
 
 func (o *ObjectSchema) serializeMap(data map[string]any) (any, error) {
